@@ -57,7 +57,7 @@ PROPS = {
                 configs=['dbg', 'rel'], need=['borrow']),
     'C12': dict(title='len and capacity are exact; creation respects capacity and the 2^24 limit',
                 coq=['props/C12.vo'], tags=[12],
-                streams=[('w1', 'S10', 50, 60), ('w2', 'S10', 20, 60)], fill=True, api=True,
+                streams=[('w1', 'S10', 50, 60), ('w2', 'S10', 20, 60), ('w1', 'S12', 12, 70)], fill=True, api=True,
                 configs=['dbg', 'rel'], need=['create', 'createw', 'len']),
     'C13': dict(title='A cloned world is observationally identical and thereafter independent',
                 coq=['props/C13.vo'], side='clone', tags=[13],
